@@ -31,6 +31,7 @@ def main():
         print("MC_BigNat:", vlib.parse_tlc_stats(r.stdout))
     # Layer-2 models, small instances (design-level; DESIGN.md 8)
     algo = os.path.join(vlib.VERIF, "algo")
+    layer2 = {}
     for mod, cfg in (("Knuth", "Knuth_small"), ("Redc", "Redc_small"), ("Redc", "Redc_square_small"), ("Redc", "Redc_square_3limb"), ("LimbShift", "LimbShift_small"), ("AddMul", "AddMul_small"),
                      ("MG10", "MG10_2x1_small"), ("MG10", "MG10_3x2_small"), ("MG10", "MG10_recip2_small"),
                      ("Lehmer", "Lehmer_prefix_small"), ("Lehmer", "Lehmer_full_small"), ("Lehmer", "Lehmer_ext_small"),
@@ -50,4 +51,8 @@ def main():
             rc = 2
         else:
             print(f"algo/{cfg}:", vlib.parse_tlc_stats(r.stdout))
+            layer2[cfg] = dict(vlib.parse_tlc_stats(r.stdout), result="no invariant violated")
+    import json
+    with open(os.path.join(vlib.OUT, "layer2.json"), "w") as fh:
+        json.dump(layer2, fh, indent=1)
     return rc
